@@ -4,7 +4,7 @@
    flight, any enabled one may advance; update_document compares document versions and keeps base_dict).
    `lastword w u` is what the client shows for u (the most recent publishDiagnostics, by provenance),
    `expected w u` what the property demands, `pubval w u` what doc_state would publish now. *)
-Require Import Base Server ServerProofs ServerSeq ServerConc ServerClose ServerVer C09Batch C09BatchProofs C09Seq C09SeqProofs C09DictLock.
+Require Import Base Server ServerProofs ServerSeq ServerConc ServerClose ServerVer C09Batch C09BatchProofs C09Seq C09SeqProofs C09DictLock Tables_c09handlers C09Handlers.
 
 (* ================================================================================================
    What does NOT hold (each with a concrete schedule on the faithful model; replayed on the real
@@ -622,3 +622,19 @@ Example C09_add_word_nonvacuous :
   (exists y, run [CAdmit; CAdmit; CRun 0] (init two_words_history (world0 0)) = Some y /\
      s_dlock (y_world y) = true /\ step (CRun 1) y = None /\ step (CRun 0) y <> None).
 Proof. exact (conj two_words_run lock_blocks_second_load). Qed.
+
+(* ================================================================================================
+   Phase 4 (c): the call skeleton of the handlers in harper-ls/src/backend.rs, re-read from /repo on every run by
+   tools/tables/c09handlers.py (Model/Tables_c09handlers.v), is the one the hand-written models follow
+   (Proofs/C09Handlers.v says which piece of `prog` / `sstep` each line stands for): who calls update_document /
+   update_document_from_file / publish_diagnostics in which order, that pull_config and the dictionary files are read
+   BEFORE doc_state is locked and the version check comes first under the lock, that the add-word commands load and save
+   under dict_write_lock and drop the guard BEFORE they re-read the document, that did_change_configuration rebuilds
+   every linter under the lock and then re-reads and re-publishes every document.
+   ================================================================================================ *)
+Theorem C09_handler_skeletons :
+  c09_skeletons = expected_skeletons.
+Proof. exact handler_skeletons. Qed.
+Check C09_handler_skeletons :
+  c09_skeletons = expected_skeletons.
+Print Assumptions C09_handler_skeletons.
